@@ -83,7 +83,9 @@ func genC07(t *rapid.T) c07Case {
 		blocks = rapid.IntRange(0, 4).Draw(t, "blocksSmall")
 	}
 	n := blocks*5 + res
-	if n > 256 {
+	if rapid.IntRange(0, 19).Draw(t, "longKey") == 0 { // beyond the quantifier's 256 bytes: same statement, rarer sizes
+		n = rapid.SampledFrom([]int{300, 640, 1000, 2048}).Draw(t, "longLen") + res
+	} else if n > 256 {
 		n = 255 - (255-res)%5
 		n = (n/5)*5 + res
 		if n > 256 {
